@@ -28,6 +28,57 @@ fn reps() -> Vec<(u32, Option<u32>, Mode)> {
     vec![(0, Some(1), Mode::Greedy), (0, None, Mode::Greedy), (1, None, Mode::Lazy), (2, Some(2), Mode::Greedy), (0, None, Mode::Poss)]
 }
 
+/// Case-insensitivity spelled out: every literal / class inside an active `i` scope is replaced by
+/// a class that lists both cases and the flag groups are dropped - an independent statement of what
+/// `(?i)P` means for the atoms of this space. None if the tree has an atom the table does not know.
+fn desugar(n: &Node, active: bool) -> Option<Node> {
+    let bx = |n: Node| Box::new(n);
+    Some(match n {
+        Lit(l) if active => {
+            let mut v = vec![];
+            for c in l.chars() {
+                if c.is_ascii_alphabetic() {
+                    v.push(Node::class(&format!("[{}{}]", c.to_ascii_lowercase(), c.to_ascii_uppercase())));
+                } else if c.to_lowercase().to_string() == c.to_uppercase().to_string() {
+                    v.push(Node::lit(&c.to_string()));
+                } else {
+                    return None;
+                }
+            }
+            if v.len() == 1 {
+                v.pop().unwrap()
+            } else {
+                Concat(v)
+            }
+        }
+        Class(c) if active => Node::class(match c.as_str() {
+            "[ab]" => "[abAB]",
+            "[^a]" => "[^aA]",
+            "[A-B]" => "[A-Ba-b]",
+            "\\w" => "\\w",
+            _ => return None,
+        }),
+        Flags(on, off, Some(body)) => {
+            let act = if on.contains('i') { true } else if off.contains('i') { false } else { active };
+            if !on.chars().all(|c| c == 'i') || !off.chars().all(|c| c == 'i') {
+                return None;
+            }
+            NonCap(bx(desugar(body, act)?))
+        }
+        Flags(..) | Raw(_) => return None,
+        Concat(v) => Concat(v.iter().map(|c| desugar(c, active)).collect::<Option<Vec<_>>>()?),
+        Alt(v) => Alt(v.iter().map(|c| desugar(c, active)).collect::<Option<Vec<_>>>()?),
+        Group(nm, c) => Group(nm.clone(), bx(desugar(c, active)?)),
+        NonCap(c) => NonCap(bx(desugar(c, active)?)),
+        Atomic(c) => Atomic(bx(desugar(c, active)?)),
+        Repeat(c, lo, hi, m) => Repeat(bx(desugar(c, active)?), *lo, *hi, *m),
+        Look(c, bh, ng) => Look(bx(desugar(c, active)?), *bh, *ng),
+        CondGroup(i, y, no) => CondGroup(*i, bx(desugar(y, active)?), bx(desugar(no, active)?)),
+        CondExpr(c, y, no) => CondExpr(bx(desugar(c, active)?), bx(desugar(y, active)?), bx(desugar(no, active)?)),
+        other => other.clone(),
+    })
+}
+
 /// does regex-automata itself reject this piece under the given NFA size limit?
 fn ra_rejects(piece: &str, limit: usize) -> Option<bool> {
     let cfg = meta::Config::new().nfa_size_limit(Some(limit));
@@ -45,11 +96,21 @@ fn ra_rejects(piece: &str, limit: usize) -> Option<bool> {
 
 pub fn run(ctx: &Ctx) -> Outcome {
     let mut g = Gen::with_atoms(atoms(), reps(), false, true);
-    let mut patterns = g.upto(ctx.tier.pick(3, 4));
+    let mut patterns = g.upto(4);
+    if ctx.tier == Tier::Thorough {
+        let mut rng = crate::rng::Rng::new(ctx.seed ^ 0xC14);
+        patterns.extend(g.of_size(5).into_iter().filter(|_| rng.chance(1, 6)));
+    }
     patterns.extend(gen::products(&g.upto(1)));
     // bigger delegated pieces for the size limits
     let bx = |n: Node| Box::new(n);
     let big = |n: u32| Repeat(bx(Node::class("\\w")), n, Some(n), Mode::Greedy);
+    // pieces that exceed the engine's DEFAULT size limit: no neutral option may make them build
+    for n in [300u32, 600] {
+        patterns.push(big(n));
+        patterns.push(Concat(vec![big(n), Look(bx(Node::lit(";")), false, false)]));
+        patterns.push(Concat(vec![Node::group(big(n)), Backref(1)]));
+    }
     for n in [5u32, 20, 60] {
         patterns.push(big(n));
         patterns.push(Concat(vec![big(n), Look(bx(Node::lit("a")), false, false)]));
@@ -65,8 +126,25 @@ pub fn run(ctx: &Ctx) -> Outcome {
         let s = p.print();
         let plain = match compile(&s) {
             Got::Val(r) => r,
-            Got::Err(_) => {
+            Got::Err(e) => {
                 acc.count("compile-err");
+                // a pattern the default limits reject must stay rejected under options that do
+                // not raise the program size limit
+                if e.contains("InnerError") {
+                    for (name, f) in [
+                        ("delegate_dfa_size_limit(4 MiB)", Box::new(|b: &mut RegexBuilder| { b.delegate_dfa_size_limit(4 << 20); }) as Box<dyn Fn(&mut RegexBuilder)>),
+                        ("case_insensitive(false)", Box::new(|b: &mut RegexBuilder| { b.case_insensitive(false); })),
+                        ("backtrack_limit(10)", Box::new(|b: &mut RegexBuilder| { b.backtrack_limit(10); })),
+                    ] {
+                        acc.evals += 1;
+                        if let Got::Val(_) = compile_with(&s, |b| f(b)) {
+                            let mut v = Violation::new("C14", "neutral-option", &s, "", 0, "RegexBuilder::build", format!("Err({}) as without the option", e), "Ok".into());
+                            v.options = json!({"option": name});
+                            acc.violate(v);
+                        }
+                        acc.count("default-limit-rejections-rechecked");
+                    }
+                }
                 return;
             }
             o => {
@@ -126,6 +204,17 @@ pub fn run(ctx: &Ctx) -> Outcome {
                     v.options = json!({"case_insensitive": true});
                     acc.violate(v);
                 }
+            }
+        }
+        // (e) what case-insensitivity MEANS, independent of how the flag travels: the builder
+        // option on P must behave like P with both cases of every letter spelled out
+        if let Some(d) = desugar(p, true) {
+            let ds = d.print();
+            if let (Got::Val(rd), Got::Val(rb)) = (compile(&ds), compile_with(&s, |b| { b.case_insensitive(true); })) {
+                // backreferences compare text exactly in both spellings, so they stay comparable
+                let (wd, wb) = (all(&rd), all(&rb));
+                compare(acc, "case-insensitive-meaning", json!({"case_insensitive": true, "spelled_out": ds}), &wd, &wb, &ds);
+                acc.count("casei-compared-with-spelled-out-classes");
             }
         }
         // (b) options that must not change anything
@@ -212,7 +301,7 @@ pub fn run(ctx: &Ctx) -> Outcome {
     });
     let mut out = Outcome::new(acc);
     out.distinct_nontrivial = out.acc.distinct;
-    out.rule = format!("{} patterns: all trees of <= {} nodes over a A b . [ab] [^a] [A-B] ^ \\b \\1 (?-i:a) (?i:b) with groups, atomic groups, look-arounds, 5 quantifier forms; context products; patterns with large delegated pieces (\\w{{n}} plain, before a look-ahead, around \\b, in a back-referenced group, in an atomic alternation); x {} texts over {{a,A,b,B}} x every offset. (a) case_insensitive(true) must give exactly the captures of \"(?i)\"+P; (b) case_insensitive(false), huge limits and a zero DFA cache must not change anything; (c) delegate_size_limit(n) for n in {{1,200,5000,100000}}: the build must fail when regex-automata's own meta::Builder rejects a delegated piece (each Delegate pattern of the VM program, or the whole pattern) under nfa_size_limit(n) and succeed with unchanged results when it accepts all of them - judged only where the oracle gives the same verdict at n/4 and 4n; (d) backtrack_limit(0): plain patterns unchanged, fancy ones unchanged or BacktrackLimitExceeded. Non-trivial: distinct patterns whose results change under case_insensitive(true).", patterns.len(), ctx.tier.pick(3, 4), texts.len());
+    out.rule = format!("{} patterns: all trees of <= 4 nodes (thorough: plus a sixth of the 5-node trees) over a A b . [ab] [^a] [A-B] ^ \\b \\1 (?-i:a) (?i:b) with groups, atomic groups, look-arounds, 5 quantifier forms; context products; patterns with large delegated pieces (\\w{{n}} plain, before a look-ahead, around \\b, in a back-referenced group, in an atomic alternation); x {} texts over {{a,A,b,B}} x every offset. (a) case_insensitive(true) must give exactly the captures of \"(?i)\"+P; (e) case_insensitive(true) on P must also give the captures of P with both cases of every letter spelled out as classes and the flag groups dropped (an independent statement of what the flag means); (b) case_insensitive(false), huge limits and a zero DFA cache must not change anything; (c) delegate_size_limit(n) for n in {{1,200,5000,100000}}: the build must fail when regex-automata's own meta::Builder rejects a delegated piece (each Delegate pattern of the VM program, or the whole pattern) under nfa_size_limit(n) and succeed with unchanged results when it accepts all of them - judged only where the oracle gives the same verdict at n/4 and 4n; (d) backtrack_limit(0): plain patterns unchanged, fancy ones unchanged or BacktrackLimitExceeded. Non-trivial: distinct patterns whose results change under case_insensitive(true).", patterns.len(), texts.len());
     out.assumptions = vec!["regex-automata is the oracle for 'exceeds the size limit'; pieces are read from Regex::debug_print".into()];
     let (cv, ci, rv, rw) = (out.acc.get("casei-changes-results:vm"), out.acc.get("casei-changes-results:with-inner-(?-i"), out.acc.get("size-limit-rejections:vm"), out.acc.get("size-limit-rejections:wrapped"));
     out.extra = json!({"casei_changes_results_vm": cv, "with_inner_minus_i": ci, "size_limit_rejections": {"vm": rv, "wrapped": rw}});
